@@ -89,6 +89,40 @@ def byline(idx, rep, rid_sched, rid_yield, tier, scenarios=("plain", "plain2", "
         rep.stats["table_rows"] = rep.stats.get("table_rows", 0) + len(rows)
 
 
+def byline_norun(idx, rep, rid):
+    """a member with run-mode: no-run sits a breadth-first run out as it does a serial one: it is never handed a line (no track_line, no
+    consideration), collects nothing, and the others are scheduled as if it were not there"""
+    fi, rows = RM.byline_rows(idx, 2, "norun", collect=True)
+    bads = {}
+    for agree, p in rows:
+        if agree:
+            continue   # what a switched-off member means for if_all_agree is not documented: judged in union mode only
+        for aspect, ok, detail in RJ.byline_judge("norun", agree, p, 2):
+            if aspect in ("schedule", "collected", "yields") and not ok:
+                bads.setdefault(aspect, detail)
+    for aspect in ("schedule", "collected", "yields"):
+        rep.check(aspect not in bads, rid, f"{fi.file}::CsvPaths.next_by_line table run-mode no-run {aspect}", bads.get(aspect, f"{len(rows)} paths"), K.where(fi, fi.node))
+
+
+def byline_keep(idx, rep, rid):
+    """unmatched-mode keep in a breadth-first collecting run: each member ends up holding exactly the lines it was handed and did not
+    match (through its own projection), in file order — so that collected and unmatched lines together are the records read, as in a
+    serial run; without collect nothing is kept"""
+    for collect in (True, False):
+        fi, rows = RM.byline_rows(idx, 2, "keep", collect=collect)
+        bad = None
+        for agree, p in rows:
+            ch = dict(p.choices)
+            considered = [v for kk, v in RM.events(p) if kk == "_consider_line"]
+            for m in ("cp0", "cp1"):
+                want = [f"limited[{m}]({ln})" for mm, ln in considered if mm == m and collect and not ch.get(f"matched({m},{ln})")]
+                got = [getattr(v, "text", v) for v in (p.final_store.get(f"{m}.unmatched") or [])]
+                if got != want or p.result[0] != "return":
+                    bad = bad or (f"next_by_line(collect={collect}) with {[(t, v) for t, v in p.choices if not t.startswith('self.')]}: member {m} with unmatched-mode keep holds {got}, "
+                                  f"documented {want} (the lines it did not match, once, in file order)")
+        rep.check(bad is None, rid, f"{fi.file}::CsvPaths.next_by_line table unmatched-mode keep (collect={collect})", bad or f"{len(rows)} paths", K.where(fi, fi.node))
+
+
 def byline_collect(idx, rep, rid):
     """per-member collection in a breadth-first run: with collect each member's result gets exactly the lines that member matched; without
     (next_by_line / fast_forward_by_line) no result gets any line"""
@@ -112,6 +146,7 @@ def byline_collect(idx, rep, rid):
 
 def r1(idx, rep):
     byline_collect(idx, rep, "R1")
+    byline_norun(idx, rep, "R1")
     # the by-line member step: track_line → _consider_line → (on match and collect) limit_collection, judged by R6;
     # here: the standalone driver has the same step (C01.R4/C03.R6 tables) and by-line appends the limited line
     fi = idx.method("CsvPaths", "next_by_line")
